@@ -115,6 +115,8 @@ def check(ctx):
                 incs.append(b)
     ret = leaf_origins(prog, fc, {"k": "cp", "pl": {"l": 0, "p": []}}, terminal_only=True)
     ok = len(incs) == 1 and in_cycle(fc, incs[0]) and bool(sn) and (fc.dominates(incs[0], sn[0][0]) or fc.dominates(sn[0][0], incs[0]))
+    # ... on *every* trip round the loop: the hop cannot be repeated without passing the increment
+    ok = ok and sn[0][0] not in fc.reachable(fc.normal_succs(sn[0][0]), avoid={incs[0]})
     ctx.check(ok, "free-count", "one-per-hop", "the free-list counter does not add exactly one per visited slot", where=where(fc))
     # ---- (2) key/value siblings
     pairs = [("key_piece_size_stats", "value_piece_size_stats"), ("key_length_stats", "value_length_stats")]
